@@ -475,3 +475,14 @@ Proof.
   cbn [parse_fields]. change (take_line (crlf ++ rest)) with (Some (@nil N, rest)). cbv iota beta.
   reflexivity.
 Qed.
+
+(* the write sequence of an unchunked body of unknown length: a head that ends with the
+   CRLF write, then one write per non-empty read *)
+Lemma go_writes_unchunked_shape meth r :
+  g_head (go_state meth r) = false -> g_te (go_state meth r) = false -> (g_cl (go_state meth r) =? -1)%Z = true ->
+  exists h, go_writes meth r = (h ++ [crlf]) ++ reads_of r /\ Forall (fun y => y <> []) (reads_of r).
+Proof.
+  intros Hh Ht Hc. unfold go_writes, go_head_writes, go_body_writes. cbv zeta. rewrite Hh, Ht, Hc, app_nil_r.
+  eexists. split; [rewrite !app_assoc; reflexivity|].
+  unfold reads_of. apply Forall_forall. intros y Hy. apply filter_In in Hy as [_ Hy]. destruct y; [discriminate | discriminate].
+Qed.
